@@ -69,7 +69,9 @@ def generate(rng, n, tier):
                 calls.append(["slice", rng.choice([None, 0, 2, 5]), rng.choice([None, 0, 4, 9])])
         extra = None
         if cls == "mssql" and rng.random() < 0.4 and kind == "select":
-            extra = ["top", rng.choice([0, 1, 5, 100])]
+            # top(n[, percent][, with_ties]), possibly after an earlier top() call of another form: the last call decides all three
+            extra = ["top", rng.choice([0, 1, 5, 100]), rng.choice([None, None, [50, True, False], [7, False, True], [3, True, True]]),
+                     rng.choice([[False, False], [False, False], [True, False], [False, True]])]
         if cls == "clickhouse" and rng.random() < 0.5 and kind == "select":
             extra = ["limit_by", rng.choice([0, 1, 3]), rng.choice([0, 0, 2])]
         yield {"cls": cls, "kind": kind, "calls": calls, "orderby": rng.random() < 0.7,
@@ -107,7 +109,10 @@ def build_src(case, paginate=True):
                 chain += ".%s(%d)" % (c[0], c[1])
         ex = case.get("extra")
         if ex and ex[0] == "top":
-            chain += ".top(%d)" % ex[1]
+            if len(ex) > 2 and ex[2]:
+                chain += ".top(%d, percent=%r, with_ties=%r)" % tuple(ex[2])
+            pct, ties = ex[3] if len(ex) > 3 else (False, False)
+            chain += ".top(%d%s%s)" % (ex[1], ", percent=True" if pct else "", ", with_ties=True" if ties else "")
         if ex and ex[0] == "limit_by":
             chain += (".limit_by(%d, T('t').b)" % ex[1]) if ex[2] == 0 else (".limit_offset_by(%d, %d, T('t').b)" % (ex[1], ex[2]))
     fu = ".for_update()" if case.get("for_update") else ""
@@ -186,7 +191,8 @@ def examine(case):
     ex = case.get("extra")
     if ex and ex[0] == "top":
         # MSSQL: TOP (n) right after SELECT [DISTINCT]
-        exp = "SELECT TOP (%d) " % ex[1]
+        pct, ties = ex[3] if len(ex) > 3 else (False, False)
+        exp = "SELECT TOP (%d) %s%s" % (ex[1], "PERCENT " if pct else "", "WITH TIES " if ties else "")
         if not body.startswith(exp):
             res.findings.append({"sig": {"kind": "top", "cls": cls}, "what": "top(%d) not rendered as %r: %s" % (ex[1], exp, text)})
             return res
